@@ -128,7 +128,7 @@ def run(spec, cfg, *, workers=16, timeout=1800, dump=None, simulate=None, depth=
     """
     spec = os.path.abspath(spec)
     meta = scratch('meta')
-    java_opts = ['-XX:+UseParallelGC', '-Xmx' + max_heap, '-DTLA-Library=' + SPEC_DIR]
+    java_opts = ['-XX:+UseParallelGC', '-Xss64m', '-Xmx' + max_heap, '-DTLA-Library=' + SPEC_DIR]
     if dfs_queue:
         java_opts.append('-Dtlc2.tool.queue.IStateQueue=StateDeque')
     cmd = ['java'] + java_opts + ['-cp', JAR + ':' + DEPS, 'tlc2.TLC', '-workers', str(workers), '-metadir', meta,
